@@ -8,6 +8,7 @@ line-protocol driver for C19
   fut <mpi|seq> <op> <void|int|vec|ref|bool> <raw|erased|assigned|voidcast|movedfrom|null> red=<sum|min|max> root=<r>
       vals=<v0/v1/…> : <step>;<step>;…
       step = 1 letter per rank (v y w g c s -); answer = per rank the comma separated observations
+      (`*` for ready/polling on an invalid future: not part of the property, not compared)
       wrap: raw = the future itself (move constructed), assigned = move-assigned into a default-constructed future,
       erased = Dune::Future<R> holding it, voidcast = Dune::Future<void> holding it (payload discarded),
       movedfrom = the Dune::Future<R> it was moved out of again (null), null = default-constructed Dune::Future<R>
@@ -213,7 +214,10 @@ def runRank (wrap : String) (f : Option AnyFut) (dontcare : Bool) (ops : List (O
   | none :: os => "-" :: runRank wrap f dontcare os
   | some o :: os =>
     let r := wrapStep wrap f o
-    showFObs dontcare r.1 :: runRank wrap r.2 dontcare os
+    -- ready()/polling on an invalid future is outside the property: not compared (`*`)
+    let invalid := (wrapStep wrap f .valid).1 == FObs.bool false
+    let shown := if invalid && (o == FOp.ready || o == FOp.spin) then "*" else showFObs dontcare r.1
+    shown :: runRank wrap r.2 dontcare os
 
 def handleFut (hdr : List String) (body : String) : String :=
   match hdr with
